@@ -1,6 +1,7 @@
 import HumphreyModel.Driver.Http
 import HumphreyModel.Model.Response
 import HumphreyModel.Spec.HttpMsg
+import HumphreyModel.Model.Client
 
 namespace Humphrey.Driver.C07
 open Humphrey Humphrey.Driver Humphrey.Driver.HttpD Humphrey.Http Humphrey.IO
@@ -40,6 +41,28 @@ def buildItems (items : String) : Option Headers :=
                                  path := p, secure := s == "1", httpOnly := h == "1", sameSite := ss })
     | _ => none)
 
+/-- One hop of a scripted chain: status, Location (redirect) or body (final). -/
+def parseHops (s : String) : Option (List (Nat × Option Bytes × Bytes)) :=
+  (s.splitOn ",").mapM (fun h =>
+    match h.splitOn ":" with
+    | [c, l, b] => do
+      let c ← c.toNat?
+      let l ← (if l == "-" then some none else (unhex l).map some)
+      let b ← unhx b
+      pure (c, l, b)
+    | _ => none)
+
+/-- The scripted origin server of the harness: `/h<i>…` is answered with hop `i`. -/
+def chainNet (hops : List (Nat × Option Bytes × Bytes)) (r : CReq) : Option Response :=
+  let digits := ((r.uri.drop 2).takeWhile Bytes.isDigit)
+  let idx := if r.uri.take 2 == strBytes "/h" && !digits.isEmpty then Bytes.digitsValue digits 0 else hops.length
+  match hops[idx]? with
+  | some (c, some loc, _) =>
+    some ⟨strBytes "HTTP/1.1", c, [⟨hLocation, loc⟩, ⟨hContentLength, strBytes "0"⟩], []⟩
+  | some (c, none, body) =>
+    some ⟨strBytes "HTTP/1.1", c, [⟨hContentLength, Bytes.natToBytes body.length⟩, ⟨HName.ofName (strBytes "X-Hop"), Bytes.natToBytes idx⟩], body⟩
+  | none => some ⟨strBytes "HTTP/1.1", 404, [⟨hContentLength, strBytes "0"⟩], []⟩
+
 def dispatch (fn : String) (args : List String) (impl : String) : Option Verdict :=
   match fn, args with
   | "resp_parse", [bytes, cuts, expect] =>
@@ -71,6 +94,29 @@ def dispatch (fn : String) (args : List String) (impl : String) : Option Verdict
         | _ => (some false, "panic-or-garbage")
       some { model := model, spec := spec, reason := reason }
     | _, _, _, _ => some { model := "BADARGS" }
+  | "client", [followS, url, hops] =>
+    match (unhex url).bind parseUrl, parseHops hops with
+    | some r0, some hs =>
+      let followB := followS == "1"
+      let (final, log) := clientSend (chainNet hs) followB (hs.length + 2) r0
+      let resp := match final with | some r => canonResponse r | none => "ERR"
+      let m := s!"{resp} | {",".intercalate (log.map (fun r => hx r.line))}"
+      -- spec: with following on, the client must end at the chain's final (non-redirect) response
+      let want := match hs.getLast? with
+        | some (c, none, body) =>
+          some ⟨strBytes "HTTP/1.1", c, [⟨hContentLength, Bytes.natToBytes body.length⟩,
+                ⟨HName.ofName (strBytes "X-Hop"), Bytes.natToBytes (hs.length - 1)⟩], body⟩
+        | _ => none
+      let spec : Option Bool :=
+        if impl == "PORT-80-UNAVAILABLE" then none
+        else if followB then
+          (match want with
+           | some w => some ((impl.splitOn " | ").head? == some (canonResponse w))
+           | none => none)
+        else some (impl == m)
+      some { model := if impl == "PORT-80-UNAVAILABLE" then impl else m, spec := spec,
+             reason := "client-did-not-end-at-the-final-response" }
+    | _, _ => some { model := "BADARGS" }
   | _, _ => none
 
 end Humphrey.Driver.C07
